@@ -37,25 +37,25 @@ func setTier(prop string, quickRuns, quickWall, thoroughRuns, thoroughWall int) 
 }
 
 type workerSummary struct {
-	Runs         int                `json:"runs"`
-	Steps        int64              `json:"steps"`
-	Switches     int64              `json:"switches"`
-	VirtualNs    int64              `json:"virtual_ns"`
-	Faults       map[string]int     `json:"faults"`
-	Probes       map[string]int     `json:"probes"`
-	Policies     map[string]int     `json:"policies"`
-	Scenarios    map[string]int     `json:"scenarios"`
-	Stepcaps     int                `json:"stepcaps"`
-	Inconclusive int                `json:"inconclusive"`
-	HarnessRaces int                `json:"harness_races"`
-	Viols        []*RunReport       `json:"viols"`
-	ViolCount    map[string]int     `json:"viol_count"` // sig -> occurrences
-	Samples      []interface{}      `json:"samples"`
-	Machinery    string             `json:"machinery"`
-	Hashes       map[string]uint64  `json:"hashes"` // run index -> hash (only for determinism selftest ranges)
-	FpFile       string             `json:"fp_file"`
-	CellFile     string             `json:"cell_file"`
-	WallS        float64            `json:"wall_s"`
+	Runs         int               `json:"runs"`
+	Steps        int64             `json:"steps"`
+	Switches     int64             `json:"switches"`
+	VirtualNs    int64             `json:"virtual_ns"`
+	Faults       map[string]int    `json:"faults"`
+	Probes       map[string]int    `json:"probes"`
+	Policies     map[string]int    `json:"policies"`
+	Scenarios    map[string]int    `json:"scenarios"`
+	Stepcaps     int               `json:"stepcaps"`
+	Inconclusive int               `json:"inconclusive"`
+	HarnessRaces int               `json:"harness_races"`
+	Viols        []*RunReport      `json:"viols"`
+	ViolCount    map[string]int    `json:"viol_count"` // sig -> occurrences
+	Samples      []interface{}     `json:"samples"`
+	Machinery    string            `json:"machinery"`
+	Hashes       map[string]uint64 `json:"hashes"` // run index -> hash (only for determinism selftest ranges)
+	FpFile       string            `json:"fp_file"`
+	CellFile     string            `json:"cell_file"`
+	WallS        float64           `json:"wall_s"`
 }
 
 var devNoMin bool
@@ -83,6 +83,8 @@ func main() {
 		only     = flag.String("scenario", "", "restrict to one scenario name")
 		selftest = flag.Bool("selftest", false, "determinism self-test")
 		list     = flag.Bool("list", false, "list scenarios")
+		genSeed  = flag.Uint64("gen", 0, "development: run this run-seed once (generation mode) with trace and print it")
+		genCell  = flag.Int("cell", 0, "development: cell for -gen")
 		nomin    = flag.Bool("nomin", false, "development: list all violation signatures, do not minimise (exit 3)")
 	)
 	flag.Parse()
@@ -123,6 +125,18 @@ func main() {
 	}
 	if *maxwall > 0 {
 		tc.MaxWall = *maxwall
+	}
+	if *genSeed != 0 {
+		rep := runOne(scs[0], *genSeed, nil, true, *genCell)
+		for _, ln := range rep.Trace {
+			fmt.Println(ln)
+		}
+		js, _ := json.MarshalIndent(rep.Sample, "", " ")
+		fmt.Println("case:", string(js))
+		for _, v := range rep.Viols {
+			fmt.Printf("violation: oracle=%s sig=%s\n  %s\n", v.Oracle, v.Sig, firstLines(v.Msg, 40))
+		}
+		return
 	}
 	if *worker {
 		runWorker(scs, *seed, *from, *step, tc, *hashes, *scratch)
@@ -562,29 +576,29 @@ func writeEvidence(path, prop, tier string, seed uint64, agg *workerSummary, nfp
 		samples = []interface{}{"(no non-trivial sample captured)"}
 	}
 	cov := map[string]interface{}{
-		"evaluations":         agg.Runs,
-		"distinct_nontrivial": nfp + ncells,
-		"rule":                ruleOf[prop],
-		"samples":             samples,
-		"runs_per_hour":       int64(rph),
-		"sim_seconds_covered": float64(agg.VirtualNs) / 1e9,
-		"steps":               agg.Steps,
-		"context_switches":    agg.Switches,
-		"faults_fired":        agg.Faults,
-		"probes":              agg.Probes,
-		"dead_probes":         dead,
-		"policies":            agg.Policies,
-		"scenarios":           agg.Scenarios,
-		"stepcap_runs":        agg.Stepcaps,
-		"inconclusive":        agg.Inconclusive,
+		"evaluations":                  agg.Runs,
+		"distinct_nontrivial":          nfp + ncells,
+		"rule":                         ruleOf[prop],
+		"samples":                      samples,
+		"runs_per_hour":                int64(rph),
+		"sim_seconds_covered":          float64(agg.VirtualNs) / 1e9,
+		"steps":                        agg.Steps,
+		"context_switches":             agg.Switches,
+		"faults_fired":                 agg.Faults,
+		"probes":                       agg.Probes,
+		"dead_probes":                  dead,
+		"policies":                     agg.Policies,
+		"scenarios":                    agg.Scenarios,
+		"stepcap_runs":                 agg.Stepcaps,
+		"inconclusive":                 agg.Inconclusive,
 		"harness_race_reports_ignored": agg.HarnessRaces,
-		"determinism":         map[string]int{"seeds_rerun": detRuns, "mismatches": mism},
-		"real_components":     realComponents[prop],
-		"stub_components":     stubComponents[prop],
-		"known_findings_seen": ks,
-		"workers":             workers,
-		"race_build":          simrt.RaceBuild,
-		"exhaustive":          false,
+		"determinism":                  map[string]int{"seeds_rerun": detRuns, "mismatches": mism},
+		"real_components":              realComponents[prop],
+		"stub_components":              stubComponents[prop],
+		"known_findings_seen":          ks,
+		"workers":                      workers,
+		"race_build":                   simrt.RaceBuild,
+		"exhaustive":                   false,
 	}
 	ev := map[string]interface{}{
 		"property_id": prop,
